@@ -21,7 +21,10 @@ Record pcase := PC {
   g_id_back : option bytes;   (* IDTransformer: RIDToID(IDToRID(val)) through Values; None = no match/absent *)
   g_cover_cex : bool;         (* harness found a short name n with s.Matches(n) && !p.Matches(n) *)
   g_valid_s : bool;           (* Pattern(s).IsValid() *)
-  g_path_s : bool             (* isValidPath(s) *)
+  g_path_s : bool;            (* isValidPath(s) *)
+  g_reg : bool;               (* NewMux("svc").Handle(p) did not panic (false when p is empty: not tried) *)
+  g_routed : bool;            (* ... and GetHandler("svc." ++ s) found the handler *)
+  g_nosep : bool              (* ... and GetHandler("svc" ++ s) found a handler (s non-empty, not starting with '.') *)
 }.
 
 Definition oamap_eq (a b : option amap) : bool :=
@@ -36,7 +39,8 @@ Definition on_eq (a b : option N) : bool :=
 Definition vals_or_empty (o : option amap) : amap := match o with Some m => m | None => [] end.
 
 (* field codes: 1 valid 2 matches 3 values 4 replace_tags 5 repl_matches 6 replace_tag
-   7 index_wildcard 8 rid 9 part 10 path 11 id round trip 12 IsValid of the name 13 isValidPath of the name *)
+   7 index_wildcard 8 rid 9 part 10 path 11 id round trip 12 IsValid of the name 13 isValidPath of the name
+   14 registration of the pattern on a Mux accepted *)
 Definition check_case (c : pcase) : list N :=
   let mv := values (cp c) (cs c) in
   let rp := replace_tags (vals_or_empty mv) (cp c) in
@@ -52,7 +56,8 @@ Definition check_case (c : pcase) : list N :=
   (if Bool.eqb (is_valid_path (cp c)) (g_path_p c) then [] else [10]) ++
   (if obeq (rid_to_id (ctag c) (cp c) (id_to_rid (ctag c) (cp c) (cval c))) (g_id_back c) then [] else [11]) ++
   (if Bool.eqb (is_valid (cs c)) (g_valid_s c) then [] else [12]) ++
-  (if Bool.eqb (is_valid_path (cs c)) (g_path_s c) then [] else [13]).
+  (if Bool.eqb (is_valid_path (cs c)) (g_path_s c) then [] else [13]) ++
+  (if Bool.eqb (negb (is_nil (cp c)) && is_valid (cp c) && nodupb (tag_names (cp c))) (g_reg c) then [] else [14]).
 
 (* property C17 evaluated on the implementation's outputs only.
    codes: 1 matches<>values  2 substituted-back pattern does not match
@@ -75,7 +80,11 @@ Definition viol_case (c : pcase) : list N :=
   (if okp && is_valid_part (cval c) && existsb (beq (ctag c)) (tag_names (cp c))
       && nodupb (tag_names (cp c)) && negb (obeq (g_id_back c) (Some (cval c))) then [5] else []) ++
   (if g_part_s c && negb (g_rid_s c) then [6] else []) ++
-  (if g_rid_s c && no_qmark (cs c) && no_dollar_tokens (cs c) && negb (g_valid_s c && g_path_s c) then [7] else []).
+  (if g_rid_s c && no_qmark (cs c) && no_dollar_tokens (cs c) && negb (g_valid_s c && g_path_s c) then [7] else []) ++
+  (* 8: the registered pattern is routed to for a plain resource name exactly when it matches the name;
+     9: a name that only starts with the Mux path (no '.' after it) was routed *)
+  (if g_reg c && g_rid_s c && no_qmark (cs c) && negb (Bool.eqb (g_routed c) (g_matches c)) then [8] else []) ++
+  (if g_nosep c then [9] else []).
 
 Fixpoint run_idx {A} (f : A -> list N) (i : N) (cs : list A) : list (N * N) :=
   match cs with
